@@ -224,3 +224,16 @@ pub fn unwind_variants(r: &mut Rng, events: &mut Vec<Event>) {
     head.extend(events.drain(..));
     *events = head;
 }
+
+/// delete_rule called with names of the library's OWN rule functions (a tenth of the runs of the model-judged
+/// checks, two or three calls at random places): they are no custom rules, so the call is refused and every
+/// later line means what it meant before.
+pub fn builtin_delete_variants(r: &mut Rng, events: &mut Vec<Event>, names: &[&str]) {
+    if !r.chance(1, 10) || events.len() < 2 || names.is_empty() { return; }
+    for _ in 0..(2 + r.below(2)) {
+        let at = 1 + r.usize(events.len() - 1);
+        let clock = ClockScript::Frozen { t: events[at - 1].clock.base() };
+        let lang = if r.chance(1, 5) { "tr" } else { "en" };
+        events.insert(at, Event { actor: ADMIN, op: Op::Admin(AdminOp::DeleteRule { lang: lang.to_string(), name: r.pick(names).to_string() }), clock });
+    }
+}
